@@ -131,6 +131,18 @@ def check_channel_files(cfg, model, chdir, sessions=None, clock_lo=None):
     for sd, fn, T in fin:
         e, raw = check_final_file(cfg, model, chdir, sd, fn, T, uuid=None)
         errs.extend(e)
+        if raw is not None and e and cfg.continuous and not cfg.plain_continuous:
+            # (the content comparison above has already failed; the structural clause of C07 is still decided)
+            try:
+                got = merged([(s, s + n - 1) for s, o, n in M.file_blocks(raw) if n > 0])
+                sub = model.restrict_to_files([T])
+                exp = merged([(a, a + n - 1) for a, n, _ in sub.segs])
+                if got != exp:
+                    errs.append(("C07", "filtered_continuous_not_gapped", "%s/%s (continuous, compression=%d, "
+                                 "checksum=%s) describes samples %s, gapped mode would describe %s" % (
+                                     sd, fn, cfg.compression, cfg.checksum, got[:5], exp[:5])))
+            except Exception:  # noqa
+                pass
         if raw is None or e:
             continue
         blocks = [(s, s + n - 1) for s, o, n in M.file_blocks(raw) if n > 0]
@@ -148,6 +160,11 @@ def check_channel_files(cfg, model, chdir, sessions=None, clock_lo=None):
             if got != exp:
                 errs.append(("C04", "file_content_set", "%s/%s holds samples %s, model says %s" % (
                     sd, fn, got[:5], exp[:5])))
+                if cfg.continuous:
+                    # last clause of C07: with compression or checksums continuous mode stores gaps as gapped mode does
+                    errs.append(("C07", "filtered_continuous_not_gapped", "%s/%s (continuous, compression=%d, checksum=%s) "
+                                 "describes samples %s, gapped mode would describe %s" % (
+                                     sd, fn, cfg.compression, cfg.checksum, got[:5], exp[:5])))
         at = raw["attrs"]
         by_uuid.setdefault(at.get("uuid_str"), []).append((T, at))
     all_blocks.sort()
